@@ -1190,6 +1190,36 @@ example :
       (fun f => if f = "table_name".toList then "projects/p/instances/i".toList else [])
     = [("routing_id".toList, "projects/p".toList)] := by decide
 
+/-- hypotheses of `explicit_last_wins_split` on routing.proto's example: the second parameter
+    contributes under `routing_id` and nothing after it does -/
+example :
+    contrib tt (fun f => if f = "app_profile_id".toList then "prof".toList else [])
+      ⟨"app_profile_id".toList, some ⟨[], "routing_id".toList, [.dstar], []⟩⟩
+      = some ("routing_id".toList, "prof".toList) ∧
+    (∀ q ∈ ([] : List Param), paramKey q = "routing_id".toList →
+      contrib tt (fun f => if f = "app_profile_id".toList then "prof".toList else []) q = none) := by
+  constructor
+  · decide
+  · intro q hq; cases hq
+
+/-- hypothesis of `explicit_absent` / `explicit_none_no_header`: a non-matching value contributes nothing -/
+example : ∀ p ∈ [(⟨"table_name".toList, some ⟨[], "routing_id".toList, [.lit "projects".toList, .star], [.dstar]⟩⟩ : Param)],
+    contrib tt (fun _ => "folders/f".toList) p = none := by
+  intro p hp
+  simp only [List.mem_singleton] at hp
+  subst hp
+  decide
+
+/-- hypotheses of `capture_eq_scan`, `dstar_template_captures_all`, `star_template_exact` -/
+example : '\n' ∉ "projects/p1/x y&z/é".toList := by decide
+
+/-- hypotheses of `primary_path_first_nonempty`: `post` is the first non-empty verb -/
+example : (∀ x ∈ [([] : List Char), []], x = []) ∧ "/v1/{name}".toList ≠ [] := by
+  constructor
+  · intro x hx; simp at hx; exact hx
+  · decide
+
+
 example : encodePairs [("k".toList, "a b/c&d".toList)] = "k=a+b/c%26d".toList := by decide
 
 /-! ## What the hypotheses exclude, and where the real code violates the statement
